@@ -118,6 +118,7 @@ def run_term(setname, i, term, tier, res, only=None):
                 texts = [(rn, rv) for rn, rv in inputs.renderings(m) if rn != "wire"]
                 # JSON cannot carry every wire value faithfully (int keys become text): only texts that decode back to m itself
                 texts = [(rn, rv) for rn, rv in texts if rn != "json" or same(json.loads(rv), m)]
+                texts += [("json-ws", " \n" + rv + "\n ") for rn, rv in texts if rn == "json"]
                 for rn, text in texts:
                     for c in inputs.CARRIERS:
                         o = call(u, inputs.carry(text, c))
@@ -136,6 +137,25 @@ def run_term(setname, i, term, tier, res, only=None):
         prog.close()
 
 
+def _scramble(x, _d=0):
+    """change every mutable container reachable from x in place"""
+    if _d > 6:
+        return
+    if isinstance(x, list):
+        for e in x:
+            _scramble(e, _d + 1)
+        x.append("scrambled")
+    elif isinstance(x, dict):
+        for e in list(x.values()):
+            _scramble(e, _d + 1)
+        x["scrambled"] = True
+    elif isinstance(x, set):
+        x.add("scrambled")
+    elif isinstance(x, tuple):
+        for e in x:
+            _scramble(e, _d + 1)
+
+
 def run_serdes(res):
     """(3) serdes.load / strload / decode."""
     cold.clear_all()
@@ -145,8 +165,13 @@ def run_serdes(res):
     # JSON text of pool values
     pool = [None, True, False, 0, 1, -1, 2**63 - 1, -(2**63), 1.5, -2.5, 1e22, 5e-324, "", "a", "é", "\x00", '"', "null", [], {}, [1, "a", None], {"a": 1}, {"a": {"b": [1, 2.5, None, True]}},
             [[]], [{}], {"k": []}, ["1", "true"], {"1": 1}, [1e16, 0.1], {"é": "日本"}]
+    # RFC 8259 allows insignificant whitespace around the value (and between tokens: indent=)
+    texts = []
     for v in pool:
-        text = json.dumps(v)
+        j = json.dumps(v)
+        texts += [j, " " + j, "\n" + j + "\n", "\t" + j, "\r\n" + j, j + " ", json.dumps(v, indent=1), json.dumps(v, separators=(",", ":"))]
+    texts = list(dict.fromkeys(texts))
+    for text in texts:
         want = json.loads(text)
         for c in inputs.CARRIERS:
             for fn_name, fn in (("load", serdes.load), ("strload", serdes.strload)):
@@ -159,6 +184,22 @@ def run_serdes(res):
                 if not o.ok or not same(o.val, want):
                     res.violation(f"C14/serdes/{fn_name}/json-text/{c}/{'raises:' + o.excname if not o.ok else 'differs'}",
                                   f"serdes.{fn_name}({text!r} as {c}) -> {short(o.val if o.ok else o.exc, 80)}; json.loads gives {short(want, 60)}", case)
+    # what is returned belongs to the caller: changing it in place must not change what the same text decodes to next time
+    lits = [([1, 2], [3]), {"a": [1]}, [(1, [2])], {1: {2: [3]}}, ({"k": []}, 1), [[], {}], ({1, 2}, [3])]
+    for text, ref in [(repr(v), ast.literal_eval) for v in lits] + [("[1, 2], [3]", ast.literal_eval)] + [(json.dumps(v), json.loads) for v in pool if isinstance(v, (list, dict))]:
+        want = ref(text)
+        for c in inputs.CARRIERS:
+            for fn_name, fn in (("load", serdes.load), ("strload", serdes.strload)):
+                cold.clear_all()
+                o1 = call(fn, inputs.carry(text, c))
+                if o1.ok:
+                    _scramble(o1.val)
+                o2 = call(fn, inputs.carry(text, c))
+                res.evals += 2
+                res.outcomes.add(h64("reload", text, c, fn_name, "ok" if o2.ok else o2.excname))
+                if not o2.ok or not same(o2.val, want):
+                    res.violation(f"C14/serdes/{fn_name}/result-changed-in-place-then-reloaded/{type(want).__name__}/{c}",
+                                  f"serdes.{fn_name}({text!r} as {c}) after the first result was changed in place -> {short(o2.val if o2.ok else o2.exc, 80)}; expected {short(want, 60)}", case)
     # text that is neither JSON nor a Python literal
     for s in T.STRS + EXTRA:
         isjson = call(json.loads, s).ok
@@ -192,7 +233,7 @@ def run_serdes(res):
             res.evals += 1
             if not (d.ok and type(d.val) is str and d.val == s):
                 res.violation(f"C14/serdes/decode/{c}", f"serdes.decode({s!r} as {c}) -> {d!r}", case)
-    res.samples.append({"serdes": "load/strload/decode clauses", "json_values": len(pool)})
+    res.samples.append({"serdes": "load/strload/decode clauses", "json_values": len(pool), "json_texts": len(texts)})
 
 
 def run_unit(unit, tier, res):
